@@ -207,6 +207,10 @@ class GraphParser:
     _RE_QUAL = QUALIFIER + r'[\w\-]+'  # task or fam trigger
     _RE_OPT = r'\??'  # optional output indicator
     _RE_ANDOR = re.compile(r'\s*[&|]\s*')
+    # Task name boundaries (like "\b" but aware that task names may contain
+    # the non-word characters "-+%@", e.g. "a" must not match in "a-b").
+    _RE_NAME_START = rf'(?<!{TaskID.NAME_SUFFIX_RE[:-1]})'
+    _RE_NAME_END = rf'(?!{TaskID.NAME_SUFFIX_RE[:-1]})'
 
     REC_QUAL = re.compile(_RE_QUAL)
 
@@ -654,13 +658,15 @@ class GraphParser:
                     n_trig = TaskTrigger.standardise_name(trig)
                     if n_trig != trig:
                         if offset:
-                            this = r'\b%s\b%s:%s(?!:)' % (
+                            this = r'%s%s%s:%s(?![\w\-:])' % (
+                                self._RE_NAME_START,
                                 re.escape(name),
                                 re.escape(offset),
                                 re.escape(trig)
                             )
                         else:
-                            this = r'\b%s:%s\b(?![\[:])' % (
+                            this = r'%s%s:%s(?![\w\-\[:])' % (
+                                self._RE_NAME_START,
                                 re.escape(name),
                                 re.escape(trig)
                             )
@@ -674,12 +680,17 @@ class GraphParser:
                         )
                     n_trig = TASK_OUTPUT_SUCCEEDED
                     if offset:
-                        this = r'\b%s\b%s(?!:)' % (
+                        this = r'%s%s%s(?!:)' % (
+                            self._RE_NAME_START,
                             re.escape(name),
                             re.escape(offset)
                         )
                     else:
-                        this = r'\b%s\b(?![\[:])' % re.escape(name)
+                        this = r'%s%s%s(?![\[:])' % (
+                            self._RE_NAME_START,
+                            re.escape(name),
+                            self._RE_NAME_END
+                        )
                     that = f"{name}{offset}:{n_trig}"
                     expr = re.sub(this, that, expr)
 
